@@ -39,7 +39,7 @@ def gen_cases(rng, thorough):
         for direction in ("download", "upload"):
             for single in (False, True):
                 for ip in ("127.0.0.1", "::1"):
-                    for style in ("plain", "nested", "windows"):
+                    for style in ("plain", "nested", "windows", "mixed-a", "mixed-b"):
                         variants.append((direction, single, ip, style))
         if thorough and not c.get("wrap"):
             chosen = variants
@@ -77,7 +77,8 @@ def run_client(tftpc, cwd, args, timeout=120):
 
 def one_case(v, pair, tftpc, c, idx, serial=False):
     srv, sb, cli = pair.srv, pair.sb, pair.cli
-    content = N.keyed_content(f"c14-{idx}", c["size"])
+    kind = {5: "zeros", 6: "sparse", 12: "ones"}.get(idx % 13)
+    content = N.degenerate_content(f"c14-{idx}", c["size"], kind) if kind else N.keyed_content(f"c14-{idx}", c["size"])
     base = f"f{idx}.bin"
     if idx % 5 == 3:
         base = f"f {idx} sp\u00e4ce \u6587.bin"   # legal but unusual: space and non-ASCII letters
@@ -86,7 +87,7 @@ def one_case(v, pair, tftpc, c, idx, serial=False):
     replay = {"engine": "net", "case": c, "server_args": srv.args}
     problems = []
     if c["dir"] == "download":
-        rel = {"plain": base, "nested": f"nest/deep/{base}", "windows": f"nest\\deep\\{base}"}[c["style"]]
+        rel = {"plain": base, "nested": f"nest/deep/{base}", "windows": f"nest\\deep\\{base}", "mixed-a": f"nest/deep\\{base}", "mixed-b": f"nest\\deep/{base}"}[c["style"]]
         write(os.path.join(sb["srv"], rel.replace("\\", "/")), content)
         before_c, before_s = N.snapshot(cli), N.snapshot(sb["srv"])
         rc, out, err, dt = run_client(tftpc, cli, [rel, "-d", "-rd", "dl"] + common)
@@ -105,7 +106,7 @@ def one_case(v, pair, tftpc, c, idx, serial=False):
         except OSError:
             pass
     else:
-        rel = {"plain": base, "nested": f"up/sub/{base}", "windows": f"up\\sub\\{base}"}[c["style"]]
+        rel = {"plain": base, "nested": f"up/sub/{base}", "windows": f"up\\sub\\{base}", "mixed-a": f"up/sub\\{base}", "mixed-b": f"up\\sub/{base}"}[c["style"]]
         write(os.path.join(cli, rel.replace("\\", "/")), content)
         before_c, before_s = N.snapshot(cli), N.snapshot(sb["srv"])
         rc, out, err, dt = run_client(tftpc, cli, [rel, "-u"] + common)
